@@ -1,0 +1,14 @@
+//go:build verif
+
+package native
+
+import "github.com/nspcc-dev/neo-go/pkg/core/dao"
+
+// This file is a test seam for the external verification harness (/verif, property C04).
+// It is compiled only with `-tags verif` and adds no behaviour to normal builds.
+
+// VerifVotesChanged reads the votesChanged flag of the NEO native cache as the given DAO layer sees it
+// (read-only: GetROCache, no copy is made).
+func (n *NEO) VerifVotesChanged(d *dao.Simple) bool {
+	return d.GetROCache(n.ID).(*NeoCache).votesChanged
+}
